@@ -596,9 +596,25 @@ func c17GetPressure(depth int) *SeqSpec {
 	}
 }
 
+// c17FromC13 reuses a C13 specification (alphabet, configuration) with metrics on under the C17 oracle.
+func c17FromC13(s *SeqSpec) *SeqSpec {
+	s.Cfg.Metrics = true
+	s.Oracle = c17Oracle
+	s.Abstract = c17Abstract
+	s.Probe = func(c seqCache, r *SeqRun) { r.Probe["remaining"] = c.Remaining() }
+	return s
+}
+
 func c17Seq(tier string) []SeqJob {
 	var out []SeqJob
 	add := func(name string, s *SeqSpec, secs float64) { out = append(out, SeqJob{Name: name, Spec: s, Seconds: secs}) }
+	// unequal costs and real Gets: admissions that take several victims and can still end in a
+	// rejection (the eviction metrics move although the newcomer is turned away)
+	if tier == "quick" {
+		add("seq/unequal-costs+gets/max2/depth7", c17FromC13(c13EvictSpec(7)), 40)
+	} else {
+		add("seq/unequal-costs+gets/max2/depth10", c17FromC13(c13EvictSpec(10)), 560)
+	}
 	if tier == "quick" {
 		add("seq/get-back-pressure/bufferitems1/depth8", c17GetPressure(8), 40)
 	} else {
